@@ -106,6 +106,10 @@ func (m *multiMuxManager) AddConnection(yamuxSession *yamux.Session, conn net.Co
 	m.muxesLock.Lock()
 	defer m.muxesLock.Unlock()
 	if m.lifetime.Err() != nil {
+		// Shutting down: nothing will manage (and eventually close) this session, so close it
+		// and its connection here instead of leaving them open.
+		_ = yamuxSession.Close()
+		_ = conn.Close()
 		return
 	}
 	// ClientConn uses a map of string addresses to connections. So we need to generate unique strings for the map cheaply
